@@ -10,6 +10,11 @@ Case kinds (judged separately through their clause names; `closed_loop` depends 
   closed_loop  noise-free image of isolated sources -> SourceFinder.find_sources_in_image (rms forced to
                0.02 |peak|, bkg 0) -> make_model of the extracted catalogue -> residual < 1e-3 |peak|
 
+Logging level: make_model tests the root logger for DEBUG; every make_model call made at the default level is repeated
+with the root logger at DEBUG (first 8 per case, and every whole-catalogue / mask / closed-loop model) and must return
+the identical array (`logging_level_changes_model`); a share of the model / mask / files cases runs entirely at DEBUG
+and the AeRes command line is also driven with --debug, judged by the ordinary clauses.
+
 Coordinates: numpy index (i, j) = (row, column), 0-based; the image area is [-0.5, n-0.5] on each axis.
 The C16 contracts on WCSHelper are armed during every case (their records are prefixed `c16_`).
 """
@@ -47,7 +52,9 @@ MIN_COUNTERS = {'sources_compared_with_render': 300, 'sources_in_last_half_pixel
                 'restorations_checked': 3, 'closed_loop_fields': 4, 'closed_loop_sources_matched': 8,
                 'c16_contract_sky2pix_ellipse': 300, 'shared_shape_catalogues': 10, 'whole_models_compared_with_render': 10,
                 'mask_files_via_cli': 1, 'files_checked_integer_input': 12, 'files_checked_integer_input_bscale': 4,
-                'mask_files_integer_input': 4, 'restorations_checked_integer_input': 2}
+                'mask_files_integer_input': 4, 'restorations_checked_integer_input': 2,
+                'cases_at_debug_logging': 8, 'cases_at_debug_logging_model': 4, 'cases_at_debug_logging_files': 2,
+                'logging_level_pairs_compared': 100, 'cli_runs_with_debug': 3, 'cli_runs_with_debug_effective': 3}
 
 TOL_MODEL = 1e-4        # of |peak|, statement
 TOL_LOOP = 1e-3         # of |peak|, statement
@@ -177,6 +184,26 @@ def cases(seed, tier):
                  'sigma': [2.5, 4.0, 10.0, 25.0][(t + rep) % 4], 'mask_via_cli': bool((t + rep) % 2 == 0),
                  'seed': [seed, 'pixtype', proj, rep]}
             c.update(_header_params(rng, 900 + t + 5 * rep, proj))
+            out.append(c)
+    # the logging level is configuration that must not change results: a share of the model / mask / files cases with
+    # the root logger at DEBUG (records to os.devnull), the AeRes command line with --debug; appended last
+    for t, proj in enumerate(wz.PROJECTIONS):
+        for rep in range(1 if q else 4):
+            rng = rng_for(seed, 'c14debug', proj, rep)
+            c = {'kind': 'model', 'nsrc': int(rng.choice([3, 12, 30])), 'debug_logging': True,
+                 'seed': [seed, 'debug-model', proj, rep]}
+            c.update(_header_params(rng, 1200 + t + 5 * rep, proj))
+            out.append(c)
+            if (t + rep) % 2 == 0:
+                c = {'kind': 'mask', 'mode': ('frac', 'sigma')[(t // 2 + rep) % 2], 'nsrc': int(rng.integers(1, 25)),
+                     'debug_logging': True, 'seed': [seed, 'debug-mask', proj, rep]}
+                c.update(_header_params(rng, 1300 + t + 5 * rep, proj))
+                out.append(c)
+            c = {'kind': 'files', 'fmt': fmts[(t + rep) % 3], 'nsrc': int(rng.integers(1, 15)),
+                 'sigma': [2.5, 4.0, 10.0, 25.0][(t + rep) % 4], 'mask_via_cli': True,
+                 'seed': [seed, 'debug-files', proj, rep]}
+            c['debug_logging' if t % 2 == 0 else 'cli_debug'] = True     # whole case at DEBUG / only the CLI's --debug
+            c.update(_header_params(rng, 1400 + t + 5 * rep, proj))
             out.append(c)
     return out
 
@@ -314,7 +341,20 @@ def run(case):
         rng = rng_for(*case['seed'])
         o.see('projection', case['proj'])
         kind = case['kind']
-        if kind == 'model':
+        if case.get('debug_logging') and kind in ('model', 'mask', 'files'):
+            # the whole case with the root logger at DEBUG, judged by the same clauses
+            o.count('cases_at_debug_logging')
+            o.count('cases_at_debug_logging_' + kind)
+            o.see('logging_level', 'DEBUG')
+            with _debug_logging():
+                if kind == 'model':
+                    _run_model(case, o, rng, z, helper, shape, scale_as, AeRes, models)
+                elif kind == 'mask':
+                    _run_mask(case, o, rng, z, helper, shape, scale_as, AeRes, models)
+                else:
+                    tmp = scratch_dir()
+                    _run_files(case, o, rng, z, hdr, shape, scale_as, AeRes, tmp)
+        elif kind == 'model':
             _run_model(case, o, rng, z, helper, shape, scale_as, AeRes, models)
         elif kind == 'mask':
             _run_mask(case, o, rng, z, helper, shape, scale_as, AeRes, models)
@@ -334,7 +374,64 @@ def run(case):
             shutil.rmtree(tmp, ignore_errors=True)
 
 
+class _debug_logging:
+    """root logger at DEBUG (what `AeRes --debug` / an API caller with DEBUG logging has) with the records sent to
+    os.devnull; level and handlers are restored on exit.  The logging level is configuration that must not change
+    any result."""
+
+    def __enter__(self):
+        import logging
+        self.root = logging.getLogger()
+        self.level = self.root.level
+        self.parked = list(self.root.handlers)       # e.g. the stderr handler an earlier logging.info() installed
+        for h in self.parked:
+            self.root.removeHandler(h)
+        self.sink = open(os.devnull, 'w')
+        self.handler = logging.StreamHandler(self.sink)
+        self.root.addHandler(self.handler)
+        self.root.setLevel(logging.DEBUG)
+        return self
+
+    def __exit__(self, *exc):
+        self.root.setLevel(self.level)
+        for h in list(self.root.handlers):
+            self.root.removeHandler(h)
+        for h in self.parked:
+            self.root.addHandler(h)
+        self.sink.close()
+        return False
+
+
+def _root_is_debug():
+    import logging
+    return logging.getLogger().isEnabledFor(logging.DEBUG)
+
+
+_ALWAYS_PAIRED = ('whole catalogue', 'mask mode', 'extracted catalogue')
+
+
 def _model_of(AeRes, o, comps, shape, helper, what, **kw):
+    m = _model_of_plain(AeRes, o, comps, shape, helper, what, **kw)
+    # direct clause: the same call with the root logger at DEBUG returns the identical array
+    if m is not None and not _root_is_debug() and \
+            (what in _ALWAYS_PAIRED or o.counters.get('logging_level_pairs_compared', 0) < 8):
+        with _debug_logging():
+            md = _model_of_plain(AeRes, o, comps, shape, helper, what + ' at DEBUG logging', **kw)
+        if md is not None:
+            o.count('logging_level_pairs_compared')
+            o.n_eval += 1
+            if md.shape != m.shape or not np.array_equal(md, m, equal_nan=True):
+                diff = np.nanmax(np.abs(np.nan_to_num(md.astype(float)) - np.nan_to_num(m.astype(float)))) \
+                    if md.shape == m.shape else None
+                o.violate('logging_level_changes_model',
+                          {'where': 'AeRes.make_model ' + what, 'kw': {k: repr(v) for k, v in kw.items()},
+                           'max_abs_difference': None if diff is None else float(diff),
+                           'nan_pattern_differs': bool(md.shape == m.shape and (np.isnan(md) != np.isnan(m)).any()),
+                           'sources': [[c.ra, c.dec, c.peak_flux, c.a, c.b, c.pa] for c in comps][:5]})
+    return m
+
+
+def _model_of_plain(AeRes, o, comps, shape, helper, what, **kw):
     try:
         return np.asarray(AeRes.make_model(comps, shape, helper, **kw))
     except Exception as e:
@@ -571,7 +668,7 @@ def _read(path):
         return np.array(h[0].data)
 
 
-def _cli_mask(o, wit, img, cat, rfile, sigma):
+def _cli_mask(o, wit, img, cat, rfile, sigma, debug=False):
     """the AeRes command line: --mask --sigma S with frac unset and the renamed columns"""
     import logging
     from AegeanTools.CLI import AeRes as cli
@@ -581,8 +678,22 @@ def _cli_mask(o, wit, img, cat, rfile, sigma):
             '--deccol', COLMAP['dec_col'], '--peakcol', COLMAP['peak_col'], '--acol', COLMAP['a_col'],
             '--bcol', COLMAP['b_col'], '--pacol', COLMAP['pa_col']]
     o.count('mask_files_via_cli')
+    sink = old_stderr = None
+    if debug:
+        argv.append('--debug')
+        o.count('cli_runs_with_debug')
+        if not _root_is_debug():
+            # let the command line's own logging.basicConfig(level=DEBUG) take effect (it is a no-op when the root
+            # logger already has handlers) and keep its stderr handler quiet
+            import sys
+            for h in handlers:
+                root.removeHandler(h)
+            sink, old_stderr = open(os.devnull, 'w'), sys.stderr
+            sys.stderr = sink
     try:
         rc = cli.main(argv)
+        if debug:
+            o.count('cli_runs_with_debug_effective', int(_root_is_debug()))
     except BaseException as e:
         if isinstance(e, KeyboardInterrupt):
             raise
@@ -594,6 +705,13 @@ def _cli_mask(o, wit, img, cat, rfile, sigma):
         for h in list(root.handlers):
             if h not in handlers:
                 root.removeHandler(h)
+        if sink is not None:
+            import sys
+            sys.stderr = old_stderr
+            sink.close()
+            for h in handlers:
+                if h not in root.handlers:
+                    root.addHandler(h)
     if rc != 0 or not os.path.exists(rfile):
         o.n_eval += 1
         o.violate('no_output_file', dict(wit, where='CLI AeRes --mask --sigma', returncode=rc))
@@ -644,7 +762,7 @@ def _run_files(case, o, rng, z, hdr, shape, scale_as, AeRes, tmp):
     tol_model = sum((TOL_MODEL * abs(s['peak'])) * (r != 0) + 4e-6 * abs(s['peak']) for (s, _), r in zip(inimg, refs)) \
         if refs else np.zeros(shape)
     wit = {'fmt': fmt, 'colmap': COLMAP, 'n_sources': len(srcs), 'sigma': sigma, 'mask_via_cli': bool(case.get('mask_via_cli')),
-           'input_pixel_type': pixtype,
+           'input_pixel_type': pixtype, 'debug_logging': bool(case.get('debug_logging')), 'cli_debug': bool(case.get('cli_debug')),
            'header': _hdr_witness(case)}
 
     def call(what, rfile, **kw):
@@ -708,7 +826,7 @@ def _run_files(case, o, rng, z, hdr, shape, scale_as, AeRes, tmp):
             okc = call('mask frac', r_m, mask=True, frac=frac)
         elif case.get('mask_via_cli'):
             thr = [sigma * r for _, r in inimg]
-            okc = _cli_mask(o, wit, img, cat, r_m, sigma)
+            okc = _cli_mask(o, wit, img, cat, r_m, sigma, debug=bool(case.get('cli_debug') or case.get('debug_logging')))
         else:
             thr = [sigma * r for _, r in inimg]
             okc = call('mask sigma', r_m, mask=True, sigma=sigma)
